@@ -90,15 +90,23 @@ def localConsensusOk (env : KeyEnv) (ctx : Ctx) (ms : Ms) : Bool :=
     | some d => !(d.wCount + d.execStack > MAX_STACK_SIZE)
     | none => true
 
+/-- `push_opcode_size` (src/lib.rs): bytes of the push opcode for a script of that size -/
+def pushOpcodeSize (scriptSize : Nat) : Nat :=
+  if scriptSize < 76 then 1 else if scriptSize < 0x100 then 2 else if scriptSize < 0x10000 then 3
+  else 5
+
 /-- `Ctx::check_local_policy_validity(ms).is_ok()` -/
 def localPolicyOk (env : KeyEnv) (ctx : Ctx) (ms : Ms) : Bool :=
   let e := extOf env ctx ms
   match ctx with
   | .legacy =>
-    -- `ms.max_satisfaction_size()` = `sat_data.map(max_script_sig_size)`
+    -- `ms.max_satisfaction_size()` = `sat_data.map(max_script_sig_size)`; the scriptSig of a
+    -- P2SH spend also carries the push of the redeem script (`ms.script_size()`)
     match e.satData with
     | none => false
-    | some d => !(d.ssSize > MAX_SCRIPTSIG_SIZE)
+    | some d =>
+      let scriptSz := scriptSize env ctx ms
+      !(d.ssSize + scriptSz + pushOpcodeSize scriptSz > MAX_SCRIPTSIG_SIZE)
   | .segwitv0 =>
     -- `ms.max_satisfaction_witness_elements()` = `sat_data.map(max_witness_stack_count + 1)`
     match e.satData with
